@@ -327,6 +327,91 @@ fn f15_example(ctx: &mut Ctx) {
     }
 }
 
+/// Growth beyond C05's wording: a two-callback chain s -> k inside an rr workload.  Every callback gets its
+/// self-consistent singleton bound; the arrival bound of k is the conservative propagation of s's curve
+/// (Propagated with jitter = the assumed bound of s, re-derived in every iteration); the claim checked for the
+/// chain is rr::rta_subchain(workload, [s, k]) as an end-to-end bound (activation of s -> completion of k).
+fn rrchain(ctx: &mut Ctx, id: u64, lim: u64, tmax: u64, cmax: u64, pmax: u64) {
+    let supply = gen_supply(&mut ctx.rng, pmax);
+    let next = ctx.rng.gen_range(0..=1usize);
+    let n = next + 2;
+    let tmin = (n as u64 * cmax).saturating_sub(1).max(2);
+    let kinds = ["timer", "unknown", "polled"];
+    let mut wl: Vec<Value> = vec![];
+    for j in 0..n {
+        let t = if j == n - 1 { ["unknown", "polled"][ctx.rng.gen_range(0..2)] } else { kinds[ctx.rng.gen_range(0..3)] };
+        let c = ctx.rng.gen_range(1..=cmax);
+        let a = gen_arr(&mut ctx.rng, tmin, tmin + tmax.min(3));
+        wl.push(json!({"t": t, "p": ctx.rng.gen_range(0..=2) * 2 + (j as i64 % 2), "a": a, "c": {"k": "scalar", "c": c}, "C": c}));
+    }
+    let (si, ki) = (n - 2, n - 1); // the chain: second-to-last -> last
+    let a_s = wl[si]["a"].clone();
+    let mut r: Vec<u64> = wl.iter().map(|c| u(&c["C"])).collect();
+    let mut converged = false;
+    let with_bounds = |r: &Vec<u64>| -> Vec<Value> {
+        (0..n)
+            .map(|j| {
+                let mut c = wl[j].clone();
+                c["R"] = json!(r[j]);
+                if j == ki {
+                    c["a"] = json!({"k": "prop", "J": r[si], "of": a_s});
+                }
+                c
+            })
+            .collect()
+    };
+    for _ in 0..60 {
+        let w = with_bounds(&r);
+        let mut next_r = vec![];
+        let mut failed = false;
+        for i in 0..n {
+            let inp = json!({"op": "ros2_rr", "supply": supply, "lim": lim, "workload": w, "sub": [i + 1]});
+            match guarded(&inp, ctx.watchdog_ms, call_ros2).get("ok").and_then(|x| x.as_u64()) {
+                Some(v) if v <= lim => next_r.push(v.max(r[i])),
+                _ => {
+                    failed = true;
+                    break;
+                }
+            }
+        }
+        if failed {
+            return;
+        }
+        if next_r == r {
+            converged = true;
+            break;
+        }
+        r = next_r;
+    }
+    if !converged {
+        return;
+    }
+    let w = with_bounds(&r);
+    let inp = json!({"op": "ros2_rr", "supply": supply, "lim": lim, "workload": w, "sub": [si + 1, ki + 1]});
+    let out = guarded(&inp, ctx.watchdog_ms, call_ros2);
+    let rc = match out.get("ok").and_then(|x| x.as_u64()) {
+        Some(v) if v <= lim => v,
+        _ => return,
+    };
+    let mut cbs = vec![];
+    for i in 0..n {
+        let t = wl[i]["t"].as_str().unwrap();
+        let (arr, rr, cap, succ) = if i == ki {
+            (json!({"k": "chain"}), rc, cap_of(ctx, &a_s, rc as i64), 0)
+        } else {
+            (arr_of(&wl[i]["a"]), r[i], cap_of(ctx, &wl[i]["a"], r[i] as i64), if i == si { ki + 1 } else { 0 })
+        };
+        cbs.push(json!({"t": if t == "timer" { "timer" } else { "polled" },
+                        "prio": if t == "polled" { wl[i]["p"].as_i64().unwrap() } else { -1 },
+                        "arr": arr, "succ": succ, "C": wl[i]["C"], "R": rr, "cap": cap, "w": []}));
+    }
+    if !fits(ctx, &cbs, &supply) {
+        return;
+    }
+    ctx.sink.raw(&json!({"id": id, "family": "rrchain", "supply": supply, "cbs": cbs, "lim": lim, "workload": w,
+                         "singleton_bounds": r, "chain_bound": rc, "nontrivial": true}));
+}
+
 pub fn run(ctx: &mut Ctx) {
     let family = ctx.arg("--family").unwrap_or("ecrts19".into());
     let nsys: u64 = ctx.arg("--nsys").and_then(|s| s.parse().ok()).unwrap_or(80);
@@ -338,6 +423,8 @@ pub fn run(ctx: &mut Ctx) {
     for id in 1..=nsys {
         if family == "ecrts19" {
             ecrts19(ctx, id, lim, tmax, cmax, pmax, clm);
+        } else if family == "rrchain" {
+            rrchain(ctx, id, lim, tmax, cmax, pmax);
         } else {
             rtss21(ctx, id, lim, tmax, cmax, pmax);
         }
